@@ -93,6 +93,17 @@ fn contexts(member: &str, alone: Option<&'static str>) -> Vec<Ctxt> {
         for site in treewalk::sites(&s.target.schema(), &s.wire) {
             if site.name == member {
                 out.push(Ctxt { label: format!("{}{}", s.label, member), target: s.target.clone(), wire: s.wire.clone(), path: site.path.clone() });
+                // the same message with the list's top-level member sent first instead of in key
+                // order (accepted by the decoder; the list is then followed by other members, so
+                // an element left unread would be taken for the next key)
+                if let (V::M(m), Some(Step::Key(k))) = (&s.wire, site.path.first()) {
+                    let mut m = m.clone();
+                    if let Some(pos) = m.iter().position(|(k2, _)| k2 == k) {
+                        let e = m.remove(pos);
+                        m.insert(0, e);
+                        out.push(Ctxt { label: format!("{}{} (sent first)", s.label, member), target: s.target.clone(), wire: V::M(m), path: site.path.clone() });
+                    }
+                }
             }
         }
     }
@@ -189,6 +200,15 @@ pub fn run(ctx: &'static Ctx) {
             long.push((format!("n={} pattern {:?}", n, pat), V::A((0..n).map(|k| alpha[pat[k % 3]].clone()).collect())));
         }
     }
+    {
+        use crate::refmodel::REGISTERED_ALGS;
+        long.push(("all registered algorithms".into(), V::A(REGISTERED_ALGS.iter().map(|a| param(*a, PUBLIC_KEY)).collect())));
+        long.push(("all registered algorithms, reversed".into(), V::A(REGISTERED_ALGS.iter().rev().map(|a| param(*a, PUBLIC_KEY)).collect())));
+        for a in REGISTERED_ALGS {
+            long.push((format!("[{}, ES256]", a), V::A(vec![param(a, PUBLIC_KEY), param(-7, PUBLIC_KEY)])));
+            long.push((format!("[EdDSA, {}, ES256, {}]", a, a), V::A(vec![param(-8, PUBLIC_KEY), param(a, PUBLIC_KEY), param(-7, PUBLIC_KEY), param(a, PUBLIC_KEY)])));
+        }
+    }
     let (lr, pr) = (&long, &pctx);
     sweep(ctx, "long parameter lists", (long.len() * pctx.len()) as u64, "lists of 12, 13, 16, 17 and 64 entries: unknown algorithms with the known ones at every ordered pair of positions and every single position; every 3-letter pattern repeated", move |idx, l| {
         let (what, list) = &lr[(idx as usize) / pr.len()];
@@ -276,6 +296,44 @@ pub fn run(ctx: &'static Ctx) {
                 l.fail(ctx, idx, v, || case_json(&c.target, &wire, json!({"context": c.label, "list": what})));
             }
         });
+    }
+
+    // identifiers that equal a known one only after truncation to a narrower integer: every value
+    // congruent to -7 / -8 modulo 2^8 (|x| < 2^24) or modulo 2^16 (whole range), every |x| <= 2^17;
+    // thorough: the whole signed 32-bit range
+    {
+        let alone = Target::Alone("filteredParams");
+        let one = |x: i64, l: &mut Local, idx: u64| {
+            let list = V::A(vec![param(x, PUBLIC_KEY), param(-8, PUBLIC_KEY)]);
+            l.nontrivial += 1;
+            l.bump("algorithm identifier");
+            let v = compare(P, &alone, &list);
+            if !v.ok {
+                l.fail(ctx, idx, v, || case_json(&alone, &list, json!({"context": "alone:filteredParams", "list": format!("[{}, EdDSA]", x)})));
+            }
+        };
+        if ctx.thorough() {
+            sweep(ctx, "every 32-bit algorithm identifier", 1u64 << 32, "complete: [{alg: x, type: public-key}, EdDSA] for every x in the signed 32-bit range, stand-alone list", |idx, l| one(idx as i64 + i32::MIN as i64, l, idx));
+        } else {
+            let small = (1u64 << 18) + 1;
+            let m16 = 2u64 << 16;
+            let m8 = 2u64 << 17;
+            sweep(ctx, "algorithm identifiers around truncation aliases", small + m16 + m8, "[{alg: x, type: public-key}, EdDSA] for every |x| <= 2^17, every x = -7 / -8 mod 2^16 in the signed 32-bit range, every x = -7 / -8 mod 2^8 with |x| < 2^24", |idx, l| {
+                let x: i64 = if idx < small {
+                    idx as i64 - (1 << 17)
+                } else if idx < small + m16 {
+                    let q = idx - small;
+                    ((q / 2) as i64 - (1 << 15)) * 65536 - 7 - (q % 2) as i64
+                } else {
+                    let q = idx - small - m16;
+                    ((q / 2) as i64 - (1 << 16)) * 256 - 7 - (q % 2) as i64
+                };
+                if x < i32::MIN as i64 || x > i32::MAX as i64 {
+                    return;
+                }
+                one(x, l, idx)
+            });
+        }
     }
 
     // attestation formats
